@@ -625,7 +625,15 @@ class Enc:
     def debug_value(self, name):
         """term of the (single-assignment) local bound to source variable `name`, or None"""
         place = self.fn.debug.get(name)
-        if not place or not re.match(r"^_\d+$", place):
+        if not place:
+            return None
+        if not re.match(r"^_\d+$", place):
+            # captured variable of a closure / field projection: the place variable used by reads
+            key = "place:" + (place if place.startswith("(") else "(" + place + ")")
+            for b in self.order:
+                v = self.out_state[b].get(key)
+                if v is not None:
+                    return v
             return None
         for b in self.order:
             v = self.out_state[b].get(place)
